@@ -415,6 +415,7 @@ int main(int argc, char** argv) {
     (void) argc; (void) argv;
     static char outbuf[1 << 16];
     setvbuf(stdout, outbuf, _IOFBF, sizeof outbuf);
+    verif_install_death_flush();
     while (read_line(stdin)) {
         if (g_ntok == 0) { printf("\n"); continue; }
         const char* op = g_tok[0];
